@@ -9,6 +9,7 @@
     enumeration}.
 """
 import base64
+import copy
 
 from lxml import etree
 
@@ -41,7 +42,7 @@ def shards(tier, seed):
 
 def universe(seed, uid):
     rng = core.rng_for(seed, PROP, 'uni%d' % uid)
-    o = gen.Opts(max_types=4, namespaces=3, choice_groups=True, defaults=True, sub_names=True, seq_min=True)
+    o = gen.Opts(max_types=4, namespaces=3, choice_groups=True, defaults=True, sub_names=True, seq_min=True, self_refs=True)
     return gen.rand_universe(rng, o, uid=uid)
 
 
@@ -198,6 +199,37 @@ def verdict_pairs(R, C, ir, kind, rng, tier, repro, exhaustive=False):
             args = [refval.dense_value(rng, ir, t) for _, t in md['args']]
             if any(a is None for a in args):
                 continue
+            # the request element itself nilled / emptied: the two validators have to agree on that document as on any other
+            if md['style'] == 'wrapped':
+                try:
+                    base_el = Wn.request_element(md, args)
+                except (refxml.NotConformant, refxml.SchemaMismatch, KeyError, TypeError, AttributeError):
+                    base_el = None
+                for label in (('message_nil', 'message_empty', 'message_nil_with_children') if base_el is not None else ()):
+                    el = copy.deepcopy(base_el)
+                    if label != 'message_nil_with_children':
+                        for c in list(el):
+                            el.remove(c)
+                    if label != 'message_empty':
+                        el.set('{%s}nil' % refxml.XSI, 'true')
+                    data = Wn.serialize(el if kind == 'xml' else Wn.envelope(el, 11 if kind == 'soap11' else 12))
+                    R.evaluations += 1
+                    outs = []
+                    for srv, built in ((C.server, B), (srv_lxml, Bl)):
+                        built.calls[:] = []
+                        built.returns.clear()
+                        r = drive.drive_server(srv, data)
+                        outs.append('escape' if r.exc is not None else 'reject' if (r.error is not None and not built.calls) else
+                                    'accept' if built.calls else 'other')
+                    R.count('message_level_documents')
+                    if 'escape' in outs:
+                        R.skip('an exception escaped (C10 matter)')
+                    elif outs[0] != outs[1]:
+                        R.violation('soft validation says %s, schema validation says %s for a request whose message element is %s' % (
+                            outs[0], outs[1], label), dict(repro, method=md['name'], label=label, request_b64=base64.b64encode(data).decode()),
+                            mech='verdicts_disagree:%s:soft_%ss' % (label, outs[0]))
+                    else:
+                        R.nontrivial('pair', kind, 'message', label, outs[0])
             for ai, ((an, at), av) in enumerate(zip(md['args'], args)):
                 sl = list(refval.slots(ir, at, av, (), 'top'))
                 rng.shuffle(sl)
